@@ -38,7 +38,13 @@ class Plain(Adapter):
 class TBuild(Adapter):
     def compute(self):
         r = self.obj.compute()
-        return {'result': r, 'pooled_covariance': np.array(self.obj.pooled_covariance)}
+        out = {'result': r, 'pooled_covariance': np.array(self.obj.pooled_covariance)}
+        try:
+            # the third output of a build, the one matching uses (a lazily cached inverse that goes stale would only show here)
+            out['pooled_covariance_inv'] = np.array(self.obj.pooled_covariance_inv)
+        except AttributeError:
+            pass
+        return out
 
 
 class TMatch(Adapter):
